@@ -32,11 +32,14 @@ def generate(rng, tier):
     sv = gen_services(rng, 2, types=[T1], hosts=["hostv.local."], prefix="V", custom_ttl=False)
     sh = gen_services(rng, 1, types=[rng.choice([T1, T2])], hosts=["hosth.local."], prefix="H", custom_ttl=False)
     v6 = rng.random() < 0.3  # dual-stack instance: datagrams are read from an AF_INET6 socket (4-tuple source addresses)
-    ops = [{"t": 0.0, "op": "host", "h": "V", "ip": "10.0.0.1", "layout": "multi" if v6 else rng.choice(["default", "multi"]),
-            "ip6": "fe80::1" if v6 else None},
+    # an instance created with unicast=True has no socket in the mDNS group: it hears only what is sent to its own port,
+    # in particular not its own multicast transmissions, so nothing but the peer's datagrams ever passes its listener
+    uni = not v6 and rng.random() < 0.2
+    ops = [{"t": 0.0, "op": "host", "h": "V", "ip": "10.0.0.1", "layout": "multi" if v6 or uni else rng.choice(["default", "multi"]),
+            "ip6": "fe80::1" if v6 else None, "unicast": uni},
            {"t": 0.0, "op": "host", "h": "H", "ip": "10.0.0.2", "layout": rng.choice(["default", "multi"])},
            {"t": 0.0, "op": "peer", "p": "X", "ip": "10.0.0.9", "ports": [5353, 5354]}]
-    qu_free = rng.random() < 0.5
+    qu_free = uni or rng.random() < 0.5
     # QU questions only inside truncated queries: a copy of a held truncated query is ignored whatever its questions, so
     # these runs are compared to the end although they contain QU questions
     qu_only_tc = qu_free and rng.random() < 0.5
@@ -80,6 +83,14 @@ def generate(rng, tier):
             if rng.random() < 0.5:
                 lst += [wire.RR(x.name, x.type, x.ttl, x.rdata, x.flush) for x in (ext.ptr, ext.srv, ext.txt)]
             ops.append({"t": round(t, 6), "op": "send", "p": "X", "msg": {"qr": 1, "an": [x.to_json() for x in lst]}})
+        if uni:
+            ops[-1]["dst"] = ["10.0.0.1", 40000]
+        if rng.random() < (0.5 if uni else 0.15):
+            # the very same datagram again (a querier that retries, a responder that repeats itself), after the
+            # one-second memory of the duplicate guard or within it
+            for _r in range(rng.choice([1, 1, 2])):
+                t += rng.choice([0.3, 0.999, 1.0, 1.001, 1.1, 2.5, 5.0])
+                ops.append(dict(ops[-1], t=round(t, 6)))
         t += rng.choice([0.0, 0.001, 0.05, 0.3, 0.999, 1.0, 1.3, 5.0]) * rng.random()
     if rng.random() < 0.3:
         ops.append({"t": round(t, 6), "op": "unregister", "h": "V", "name": sv[1]["name"]})
